@@ -81,7 +81,14 @@ def _corrupt_panic(e):
     return False
 
 
-CORRUPTORS = {"Trace_Panic": _corrupt_panic, "Trace_Lang": _corrupt_lang, "Trace_Ctx": _corrupt_ctx, "Trace_Reg": _corrupt_reg,
+def _corrupt_lit(e):
+    if e["obs"]["out"] == "ok" and e["kind"] == "int":
+        e["obs"]["v"][3] = (e["obs"]["v"][3] + 1) % 65536
+        return True
+    return False
+
+
+CORRUPTORS = {"Trace_Lit": _corrupt_lit, "Trace_Panic": _corrupt_panic, "Trace_Lang": _corrupt_lang, "Trace_Ctx": _corrupt_ctx, "Trace_Reg": _corrupt_reg,
               "Trace_Types": _corrupt_types, "Trace_Serde": _corrupt_serde}
 
 
@@ -122,7 +129,12 @@ def _vc_panic(v):
     return True
 
 
-VECTOR_CORRUPTORS = {"replay-panic": _vc_panic, "replay": _vc_lang, "replay-hist": _vc_hist, "replay-reg": _vc_reg, "replay-types": _vc_types}
+def _vc_lit(v):
+    v["exp"]["ok"] = not v["exp"]["ok"]
+    return True
+
+
+VECTOR_CORRUPTORS = {"replay-lit": _vc_lit, "replay-panic": _vc_panic, "replay": _vc_lang, "replay-hist": _vc_hist, "replay-reg": _vc_reg, "replay-types": _vc_types}
 
 SH = dict(quick=1, thorough=8)
 
@@ -174,6 +186,26 @@ CHECKS = {
         stages=[
             lang("mutants", "rich", 5000, 200000, ["--nctx", "4", "--depth", "3", "--mutate", "60"], shards=SH),
             lang("scalar-mutants", "c01", 2000, 60000, ["--nctx", "4", "--depth", "4", "--mutate", "60"], shards=SH, seed_off=2),
+        ],
+    ),
+    "C06": dict(
+        level="model_checking",
+        rule="every candidate text of <= MaxLen characters over per-form alphabets (integers: - 0 1 7 8 9 a f x g .; quoted bodies: "
+             "\\ \" x 0 7 8 a g +; raw: \" # a; hex pairs: 0 a f g + : - .; index literals) is lexed by the character-level "
+             "specification (WfLexLit) and embedded in a filter: the engine must accept exactly the well-formed literals that span "
+             "the whole text and decode the specified value. Random values rendered in every form (and corrupted variants, i64 and "
+             "u32 boundaries) are validated by Trace_Lit; literals inside whole filters are covered by the Trace_Lang checks.",
+        exhaustive=True,
+        assumptions=["Rust integer formatting renders random values; IP address text forms are limited to std's renderings (checked at token level)"],
+        stages=[
+            mc("int", "MC_C06.tla", "MC_C06_int.cfg", replay_cmd="replay-lit"),
+            mc("index", "MC_C06.tla", "MC_C06_index.cfg", replay_cmd="replay-lit"),
+            mc("quoted", "MC_C06.tla", "MC_C06_quoted.cfg", replay_cmd="replay-lit"),
+            mc("raw", "MC_C06.tla", "MC_C06_raw.cfg", replay_cmd="replay-lit"),
+            mc("hex", "MC_C06.tla", dict(quick=None, thorough="MC_C06_hex.cfg"), replay_cmd="replay-lit"),
+            mc("hex5", "MC_C06.tla", dict(quick="MC_C06_hex5.cfg", thorough=None), replay_cmd="replay-lit"),
+            trace("random-literals", "Trace_Lit", ["gen-lit"], 6000, 400000, shards=SH),
+            lang("in-filters", "rich", 1500, 40000, ["--nctx", "2", "--depth", "2", "--callpct", "10"], shards=SH, seed_off=3),
         ],
     ),
     "C07": dict(
